@@ -47,7 +47,11 @@ def replay(rec: Dict[str, Any]) -> List[Tuple[str, Dict[str, Any], str]]:
                     except BaseException:  # noqa: BLE001
                         pass
                 args = [jsonpath.compile(r) for r in rels] if compiled else rels
-                got = list(jsonpath.query(mq, doc).select(*args, projection=style))
+                qobj = jsonpath.query(mq, doc)
+                lazy = qobj.select(*args, projection=style)
+                # a second selection asked of the same query before the first is read changes nothing about the first
+                qobj.select("nowhere.at.all", projection=(Projection.FLAT if style != Projection.FLAT else Projection.ROOT))
+                got = list(lazy)
                 obs = [canon(tag(v)) for v in got]
                 if obs != exp:
                     disc = "wrong-projection" if len(obs) == len(exp) else "wrong-number-of-projections"
